@@ -96,6 +96,7 @@ func genCase(r *vh.Rand, i int, tier string) string {
 		}
 	}
 	regSeq := 0
+	lag := 0
 	for len(ops) < nops {
 		// due duplicates first
 		rest := pend[:0]
@@ -121,6 +122,23 @@ func genCase(r *vh.Rand, i int, tier string) string {
 		}
 		c := clients[r.Intn(len(clients))]
 		x := r.Intn(100)
+		if lag > 0 {
+			lag--
+			// while the replica lags, make the table change: sessions go (unregister,
+			// eviction by new registrations) and come
+			if y := r.Intn(6); y == 0 {
+				x = 13 // unregister
+			} else if y <= 2 {
+				x = 0 // register
+			}
+			if x >= 90 {
+				x = 20
+			}
+		} else if !big && r.Chance(1, 35) {
+			lag = 1 + r.Intn(12)
+			emit(fmt.Sprintf("INSTALL %d", lag))
+			continue
+		}
 		switch {
 		case x < 12:
 			s := entryText(c.id, seriesRegister, 0, nil)
